@@ -7,6 +7,7 @@ import SugarModel.Driver.Transcript
 import SugarModel.Spec.RefColl
 import SugarModel.Known
 import SugarModel.Generated.CommandTable
+import SugarModel.Driver.AclLines
 open Sugar Sugar.Driver
 
 def showVal (v : Val) : String := reprStr v
@@ -225,6 +226,13 @@ partial def loop (h : IO.FS.Stream) (out : IO.FS.Stream) : IO Unit := do
   if line.isEmpty then return ()
   let line := line.trimRight
   if line.isEmpty then loop h out else
+  if line.startsWith "Z " then
+    out.putStrLn (zVerdict ((line.splitOn " ").filter (· ≠ "")))
+    loop h out
+  else if line.startsWith "A " then
+    out.putStrLn (aVerdict ((line.splitOn " ").filter (· ≠ "")))
+    loop h out
+  else
   if line.startsWith "U " || line.startsWith "H " then
     let ws := line.splitOn " "
     out.putStrLn s!"{ws.getD 1 "?"} SKIP {if line.startsWith "H " then "hang" else "dump:" ++ ws.getD 2 "?"}"
